@@ -67,7 +67,24 @@ def build_matrix(extended=False):
                 cells.append({"kind": "wrong-output-kind", "cmd": cmd, "param": pname, "producer": "out"})
                 if p["fz"] is not None:
                     cells.append({"kind": "fuzzy-swap", "cmd": cmd, "param": pname, "needs_fuzzy": p["fz"]})
-    from ..refmodel.declarations import FUZZY
+    from ..refmodel.declarations import FUZZY, NETCDF
+    for cmd in sorted(NETCDF):
+        d = NETCDF[cmd]
+        cells.append({"kind": "extra-param", "cmd": cmd, "config": "netcdf"})
+        for pname in sorted(d["params"]):
+            p = d["params"][pname]
+            if p["required"]:
+                cells.append({"kind": "missing-param", "cmd": cmd, "param": pname, "config": "netcdf"})
+            kinds = list(WRONG12.get(p["kind"], []))
+            if extended:
+                kinds += WRONG13_EXTRA.get(p["kind"], [])
+            for label, val in kinds:
+                if label == "relative-no-wd":
+                    continue
+                cells.append({"kind": "wrong-kind", "cmd": cmd, "param": pname, "pkind": p["kind"], "label": label,
+                              "value": val, "config": "netcdf"})
+            if p["kind"] == "results":
+                cells.append({"kind": "wrong-output-kind", "cmd": cmd, "param": pname, "producer": "pv", "config": "netcdf"})
     for cmd in sorted(FUZZY):
         # the command exists, but not in the libraries selected for this program (an earlier program of the same
         # process selected them)
@@ -168,7 +185,7 @@ def concretise(rng, model, cell):
         if cell["label"] == "relative-no-wd":
             f["no_wd"] = True
     elif cell["kind"] == "wrong-output-kind":
-        if tgt["name"] in ("pv", "out"):
+        if tgt["name"] == "pv" or (tgt["name"] == "out" and cell["producer"] == "out"):
             return None
         f["param"] = cell["param"]
         f["producer"] = cell["producer"]
@@ -272,7 +289,7 @@ def expected_errors(fault):
         if lab == "item-unknown":
             return [("ResultDoesNotExist", {"result": "nosuch"})]
         if lab == "missing-file":
-            return [("PathDoesNotExist", {"path$": "nofile.csv"})]
+            return [("PathDoesNotExist", {"path$": str(v).rsplit("/", 1)[-1]})]
         if lab == "relative-no-wd":
             return [("InvalidRelativePath", {"path": v})]
         if lab.startswith("item-"):
@@ -349,8 +366,70 @@ def _common_schedule(rng, model, fault):
             "layout": random_layout(rng, wild=rng.random() < 0.5)}
 
 
+NC_LIBS = ("mpilot.libraries.eems.basic", "mpilot.libraries.eems.netcdf", "mpilot.libraries.eems.fuzzy")
+DECL_NC = decl_table("netcdf")
+
+
+def nc_model(rng):
+    """A small valid model of the NetCDF configuration; $NC / $DIR are replaced by real scratch paths at run time."""
+    cmds = [{"name": "r0", "cmd": "EEMSRead", "args": {"InFileName": "$NC", "InFieldName": "elevation"}}]
+    r = rng.random()
+    if r < 0.5:
+        cmds[0]["args"]["DataType"] = rng.choice(["Float", "Integer", "Positive Float"])
+    if rng.random() < 0.3:
+        cmds[0]["args"]["MissingValue"] = rng.choice([-9999, 1776])
+    nf, fz = ["r0"], []
+    for i in range(rng.randint(1, 4)):
+        name = "v%d" % (i + 1)
+        k = rng.choice(["Sum", "Copy", "AMinusB", "Multiply", "CvtToFuzzy", "FuzzyNot", "FuzzyOr", "Maximum"])
+        if k in ("FuzzyNot", "FuzzyOr") and not fz:
+            k = "CvtToFuzzy"
+        if k in ("Sum", "Multiply", "Maximum"):
+            args = {"InFieldNames": [rng.choice(nf) for _ in range(rng.randint(1, 3))]}
+        elif k == "Copy":
+            args = {"InFieldName": rng.choice(nf)}
+        elif k == "AMinusB":
+            args = {"A": rng.choice(nf), "B": rng.choice(nf)}
+        elif k == "CvtToFuzzy":
+            args = {"InFieldName": rng.choice(nf), "TrueThreshold": 2400, "FalseThreshold": 1700}
+        elif k == "FuzzyNot":
+            args = {"InFieldName": rng.choice(fz)}
+        else:
+            args = {"InFieldNames": [rng.choice(fz) for _ in range(rng.randint(1, 2))]}
+        cmds.append({"name": name, "cmd": k, "args": args})
+        (fz if DECL[k]["fuzzy"] else nf).append(name)
+    cmds.append({"name": "pv", "cmd": "PrintVars", "args": {"InFieldNames": [rng.choice(nf)], "OutFileName": "$DIR/print.txt"}})
+    cmds.append({"name": "out", "cmd": "EEMSWrite", "args": {
+        "OutFileName": "$DIR/out.nc", "OutFieldNames": list(dict.fromkeys(rng.choice(nf + fz) for _ in range(rng.randint(1, 3)))),
+        "DimensionFileName": "$NC", "DimensionFieldName": "elevation"}})
+    return {"table": None, "cmds": cmds, "config": "netcdf"}
+
+
+def _generate12_nc(rng, index, tier, cell):
+    model = nc_model(rng)
+    twin = rng.random() < 0.1
+    fault = None
+    for _ in range(5):
+        fault = concretise(rng, model, cell)
+        if fault is not None:
+            break
+    if fault and fault["kind"] == "wrong-kind" and fault.get("label") == "missing-file":
+        fault["value"] = "$DIR/nofile.nc"
+    sch = _common_schedule(rng, model, fault)
+    sch["layout"]["eol"] = "\n"
+    if fault and fault["kind"] == "extra-param":
+        fault["pos"] = rng.randint(0, 6)
+    sc = {"engine": "modelsim", "prop": "C12", "mode": "fault12", "config": "netcdf", "model": model,
+          "fault": None if (twin or fault is None) else fault, "cell": {k: v for k, v in cell.items() if k != "value"},
+          "route": "lib", "no_wd": False}
+    sc.update(sch)
+    return sc
+
+
 def _generate12(rng, index, tier):
     cell = MATRIX12[index % len(MATRIX12)]
+    if cell.get("config") == "netcdf":
+        return _generate12_nc(rng, index, tier, cell)
     twin = rng.random() < 0.08
     fault = None
     for _ in range(20):
@@ -686,7 +765,117 @@ def _in_domain(model, res, log):
         return False
 
 
+def _subst_paths(v, nc, d):
+    if isinstance(v, str):
+        return v.replace("$NC", nc).replace("$DIR", d)
+    if isinstance(v, list):
+        return [_subst_paths(x, nc, d) for x in v]
+    if isinstance(v, dict):
+        return {k: _subst_paths(x, nc, d) for k, x in v.items()}
+    return v
+
+
+def _execute12_nc(sc):
+    """Located single fault in the NetCDF configuration: real files in a per-run scratch directory."""
+    import os
+    import shutil
+    import tempfile
+    from mpilot.program import Program
+
+    res = RunResult()
+    model = sc["model"]
+    log = EventLog(cap=6000)
+    res.log = log
+    fault = sc.get("fault")
+    log.emit("scenario", prop="C12", config="netcdf", fault=({k: v for k, v in fault.items() if k != "value"} if fault else None))
+    scratch = os.environ.get("MPSIM_SCRATCH", "")
+    nc = os.path.join(scratch, "repo_test_data", "netcdf_test.nc")
+    root = tempfile.mkdtemp(prefix="c12nc-", dir=os.path.join(scratch, "work"))
+    label = _fault_label(fault)
+    try:
+        m2 = copy.deepcopy(model)
+        for c in m2["cmds"]:
+            c["args"] = _subst_paths(c["args"], nc, root)
+        f2 = copy.deepcopy(fault)
+        if f2 and "value" in f2:
+            f2["value"] = _subst_paths(f2["value"], nc, root)
+        from .modelsim import program_nodes
+        nodes = program_nodes(m2["cmds"], sc.get("order"), sc.get("argseed", 0))
+        info = apply_fault(nodes, f2)
+        if info.get("inapplicable"):
+            return res
+        try:
+            text, ledger = render(nodes, sc.get("layout") or PLAIN)
+        except ValueError:
+            res.observe("unrenderable scenario")
+            return res
+
+        def runaway(key, depth):
+            res.violate("C12.runaway", "C12.runaway unbounded-nesting", "execute nesting reached %d" % depth)
+
+        mon = ExecMonitor(log, nesting_cap=len(m2["cmds"]) + 3, on_runaway=runaway)
+        outcome, exc = "ok", None
+        with Hygiene(), StdCapture(log) as cap:
+            try:
+                program = Program.from_source(text, libraries=NC_LIBS, working_dir=root)
+                mon.install(list(program.command_library.values()))
+                program.run()
+            except SimAbort:
+                outcome = "abort"
+            except Exception as e:  # noqa
+                outcome, exc = "raise", e
+            finally:
+                mon.uninstall()
+        produced = sorted(x for x in os.listdir(root))
+        log.emit("outcome", outcome=outcome, exc=type(exc).__name__ if exc else None, produced=produced)
+        res.state_keys.add(h64(["nc", label, outcome]))
+        if outcome == "abort":
+            pass
+        elif not fault:
+            if outcome != "ok":
+                res.violate("C12.accept", _sig12("accept well-formed-model-rejected netcdf", None, exc),
+                            "a well-formed NetCDF model was rejected: %r" % (exc,))
+            elif "out.nc" not in produced:
+                res.violate("C12.accept", "C12.accept netcdf-output-missing", "accepted model wrote no out.nc")
+            else:
+                res.probe("unfaulted twin (accepted side), NetCDF configuration")
+        elif outcome == "ok":
+            res.violate("C12.reject", _sig12("reject accepted netcdf", fault), "NetCDF model with fault [%s] was accepted" % label)
+        else:
+            f3 = dict(f2)
+            why = check_expected_nc(exc, f3)
+            if why is not None:
+                res.violate("C12.error", _sig12("error wrong-rejection netcdf", fault, exc),
+                            "fault [%s] was rejected with %s: %s (%s)" % (label, type(exc).__name__, why, str(exc)[:160]))
+            execs = sum(mon.counts.values())
+            if execs or produced or cap.out.getvalue():
+                res.violate("C12.effects", _sig12("effects side-effect-before-rejection netcdf", fault),
+                            "fault [%s]: %d commands executed, files produced %r, %d characters on stdout"
+                            % (label, execs, produced, len(cap.out.getvalue())))
+            res.probe("NetCDF configuration fault: " + fault["kind"])
+    finally:
+        shutil.rmtree(root, ignore_errors=True)
+    res.case_key = h64([sc.get("cell"), [c["cmd"] for c in model["cmds"]], label, "nc"])
+    res.schedule_key = h64([sc.get("order"), label, "nc"])
+    res.nontrivial = True
+    if fault:
+        res.configured("located-" + fault["kind"])
+        res.fired("located-" + fault["kind"])
+    return res
+
+
+def check_expected_nc(exc, fault):
+    saved = DECL.get(fault["cmd"])
+    try:
+        DECL[fault["cmd"]] = DECL_NC[fault["cmd"]]
+        return check_expected(exc, fault)
+    finally:
+        DECL[fault["cmd"]] = saved
+
+
 def _execute12(sc):
+    if sc.get("config") == "netcdf":
+        return _execute12_nc(sc)
     from mpilot.exceptions import MPilotError
     res = RunResult()
     model = sc["model"]
@@ -1017,6 +1206,16 @@ def shrink_candidates(sc):
     def clone():
         return copy.deepcopy(sc)
 
+    if sc.get("config") == "netcdf":
+        if sc.get("layout") != PLAIN:
+            c = clone()
+            c["layout"] = dict(PLAIN)
+            yield c
+        if sc.get("order") != sorted(sc.get("order", [])):
+            c = clone()
+            c["order"] = sorted(c["order"])
+            yield c
+        return
     model = sc["model"]
     cmds = model["cmds"]
     keep = set()
